@@ -31,7 +31,13 @@ def tstr(t, syntax="z"):
     """timestamp syntaxes: z = plain, frac = fractional seconds, raw strings are passed through"""
     if isinstance(t, str):
         return t
+    if syntax in FRACTIONS:
+        return S.fmt_time(t, z=False) + FRACTIONS[syntax] + "Z"
     return S.fmt_time(t, frac=(syntax == "frac"))
+
+
+# fractional-second syntaxes (xs:dateTime allows any number of digits; .NET writes 7, some Java stacks 9)
+FRACTIONS = {"frac1": ".5", "frac6": ".123456", "frac7": ".1234567", "frac9": ".123456789", "frac0s": ".000"}
 
 
 def sig_template(ref_id, key_name=None, keyinfo="cert", digest="http://www.w3.org/2000/09/xmldsig#sha1",
@@ -178,7 +184,11 @@ def render_response(r, syntax="z"):
     if r.get("issuer") is not None:
         head += "<saml:Issuer>%s</saml:Issuer>" % xesc(r["issuer"])
     rsig = r.get("sig", "absent")
-    sigpart = sig_template(r["id"], SIGN_KEY[rsig], r.get("keyinfo", "cert")) if rsig != "absent" else ""
+    def key_of(state, elem):
+        # a valid / corrupted signature may be made with any signing key the issuer publishes (key roll-over)
+        return elem.get("sig_key") or SIGN_KEY[state] if state in ("valid", "corrupted") else SIGN_KEY[state]
+
+    sigpart = sig_template(r["id"], key_of(rsig, r), r.get("keyinfo", "cert")) if rsig != "absent" else ""
     status = '<samlp:Status><samlp:StatusCode Value="%s">%s</samlp:StatusCode>%s</samlp:Status>' % (
         xesc(r.get("status_top", SUCCESS)),
         '<samlp:StatusCode Value="%s"/>' % xesc(r["status_second"]) if r.get("status_second") is not None else "",
@@ -187,7 +197,7 @@ def render_response(r, syntax="z"):
     body = []
     for a in r.get("assertions", []):
         asig = a.get("sig", "absent")
-        ax = render_assertion(a, SIGN_KEY[asig] if asig != "absent" else None, syntax)
+        ax = render_assertion(a, key_of(asig, a) if asig != "absent" else None, syntax)
         body.append((a, ax))
     doc = head + sigpart + status + "".join(
         ("<saml:EncryptedAssertion>%s</saml:EncryptedAssertion>" % ax) if a.get("encrypted") else ax for a, ax in body
@@ -195,7 +205,7 @@ def render_response(r, syntax="z"):
     for a, ax in body:
         asig = a.get("sig", "absent")
         if asig != "absent":
-            doc = sign_xml(doc, SAML + ":Assertion", a["id"], SIGN_KEY[asig])
+            doc = sign_xml(doc, SAML + ":Assertion", a["id"], key_of(asig, a))
             if asig == "corrupted":
                 doc = corrupt_in(doc, a["id"])
     # encrypt in document order (the stand-in encrypts the first clear Assertion below an EncryptedAssertion)
@@ -203,7 +213,7 @@ def render_response(r, syntax="z"):
         if a.get("encrypted"):
             doc = encrypt_first_assertion(doc, a.get("enc_cert", "sp_enc1") if a.get("decryptable", True) else "attacker")
     if rsig != "absent":
-        doc = sign_xml(doc, SAMLP + ":Response", r["id"], SIGN_KEY[rsig])
+        doc = sign_xml(doc, SAMLP + ":Response", r["id"], key_of(rsig, r))
         if rsig == "corrupted":
             doc = corrupt_response(doc)
     return doc
@@ -267,6 +277,9 @@ def sp_for(cfg):
             spopts[name] = cfg[opt]
     if cfg.get("allow_unsolicited"):
         spopts["allow_unsolicited"] = True
+    if "allow_unsolicited_raw" in cfg:
+        # the raw configuration value, whatever its form (the case's "allow_unsolicited" says what it means)
+        spopts["allow_unsolicited"] = cfg["allow_unsolicited_raw"]
     extra = {}
     if cfg.get("skew") is not None:
         extra["accepted_time_diff"] = cfg["skew"]
@@ -279,8 +292,25 @@ def sp_for(cfg):
         # consumer endpoints configured as indexed 3-tuples (url, binding, index)
         spopts["endpoints"] = {"assertion_consumer_service": [(S.SP_ACS_POST, S.BINDING_POST, 1), (S.SP_ACS_REDIRECT, S.BINDING_REDIRECT, 2)],
                                "single_logout_service": [(S.SP_SLO_REDIRECT, S.BINDING_REDIRECT)]}
+    if cfg.get("form") in ("str", "Str"):
+        # the documented textual form of boolean options ("true"/"false"; "True" is a truthy string for the code)
+        for k, v in list(spopts.items()):
+            if v is True:
+                spopts[k] = "true" if cfg["form"] == "str" else "True"
+            elif v is False:
+                spopts[k] = "false"
     conf = S.sp_config(sp=spopts, **extra)
-    sp = S.make_sp(conf)
+    if cfg.get("config_class") in ("Config", "IdPConfig"):
+        # the same dictionary reaching Saml2Client through the generic Config class (combined IdP+SP deployments)
+        S.install()
+        import saml2.config as SC
+        from saml2.client import Saml2Client
+
+        c = getattr(SC, cfg["config_class"])()
+        c.load(conf)
+        sp = Saml2Client(config=c)
+    else:
+        sp = S.make_sp(conf)
     if len(_sp_cache) > 64:
         _sp_cache.clear()
     _sp_cache[key] = sp
@@ -324,6 +354,41 @@ def run_sp(case):
             return {"r": "none", "cached": False}
         return {"r": "identity", "name_id": name_id, "issuer": r.issuer(), "came_from": None,
                 "not_on_or_after": r.not_on_or_after, "session_index": None, "cached": _snapshot(sp) != before}
+    if env.get("kind") == "factory":
+        # the second public entry point: saml2.response.authn_response(...) + loads() + verify()
+        from saml2.response import authn_response
+
+        with S.clock(env["now"]):
+            try:
+                ar = authn_response(sp.config, list(case.get("return_addrs") or []), outstanding,
+                                    asynchop=binding not in ("soap", "paos"),
+                                    allow_unsolicited=bool(case["cfg"].get("allow_unsolicited", False)),
+                                    want_assertions_signed=bool(case["cfg"].get("want_assert", False)), conv_info=conv)
+                if case.get("first") is not None:
+                    # the same object used before for another Response (as tests/test_44_authnresp.py does): whatever that
+                    # call left behind must not change the verdict on this one
+                    try:
+                        ar.loads(render_response(case["first"], case.get("syntax", "z")), False)
+                        ar.verify()
+                    except Exception:
+                        pass
+                ar.loads(xml, False)
+                r = ar.verify()
+            except Exception as e:
+                return {"r": "rejected", "err": type(e).__name__, "cached": False}
+            if r is None:
+                return {"r": "none", "cached": False}
+            name_id = r.name_id.text if getattr(r, "name_id", None) is not None else None
+            try:
+                si = r.session_info()
+            except Exception:
+                si = None
+        if name_id is None and not r.ava and si is None:
+            return {"r": "none", "cached": False}
+        return {"r": "identity", "name_id": name_id, "issuer": si["issuer"] if si else None,
+                "came_from": si["came_from"] if si else r.came_from,
+                "not_on_or_after": si["not_on_or_after"] if si else None,
+                "session_index": si["session_index"] if si else None, "cached": False}
     with S.clock(env["now"]):
         try:
             r = sp.parse_authn_request_response(msg, BINDINGS[binding], outstanding, conv_info=conv)
